@@ -86,3 +86,12 @@ def c01_unit_squared_component_underflows(site, w):
     if fn == "log1p":
         return x == -1.0 and 0 < ay < lim
     return ax == 1.0 and 0 < ay < lim
+
+
+def c04_upcast_downcast_cancel(site, w):
+    """rule upcast(downcast(x)) -> x: exact in real arithmetic but not in floating point (the downcast rounds)"""
+    if not (site.startswith("step:float:") or site.startswith("step:exact:")):
+        return False
+    if w.get("rule") not in ("upcast", "downcast"):
+        return False
+    return "(upcast (downcast" in w.get("before", "")
